@@ -3,7 +3,7 @@
    Definitions only: proofs live in proofs/FilterParse_lemmas.v.
 
      quotedString = QuotedString(double quote) | QuotedString(single quote)
-     var          = Literal("@state") | Literal("@name") | Word(alphas)
+     var          = Literal("@state") | Literal("@name") | Word(alphas, alphanums + "_")   (Word(alphas) before fixes/C19-10)
      regexExpr    = var + "~" + quotedString
      eqExpr       = var + "=" + (var | quotedString)
      stringList   = quotedString + ZeroOrMore("," + quotedString)
@@ -86,16 +86,21 @@ Definition keyword (w : str) (st : pst) : option pst :=
   | None => None
   end.
 
-(* Word(alphas) *)
-Fixpoint take_alpha (s : str) : str * str :=
+(* Word(alphas, alphanums + "_"): a letter, then letters, digits, underscores (a tag name) *)
+Definition is_tagchar (c : N) : bool := is_alpha c || is_digit c || (c =? 95).
+Fixpoint take_tagchars (s : str) : str * str :=
   match s with
-  | c :: s' => if is_alpha c then let '(w, r) := take_alpha s' in (c :: w, r) else ([], s)
+  | c :: s' => if is_tagchar c then let '(w, r) := take_tagchars s' in (c :: w, r) else ([], s)
   | [] => ([], [])
   end.
 Definition word (st : pst) : option (str * pst) :=
   let '(p, s) := skipw st in
-  let '(w, r) := take_alpha s in
-  match w with [] => None | _ => Some (w, (last_of w p, r)) end.
+  match s with
+  | c :: s' => if is_alpha c
+               then let '(w, r) := take_tagchars s' in Some (c :: w, (last_of (c :: w) p, r))
+               else None
+  | [] => None
+  end.
 
 (* var: the token is the variable name as written *)
 Definition p_var (st : pst) : option (str * pst) :=
@@ -350,7 +355,8 @@ Fixpoint pr_rest (l : list (str * ratom)) : str :=
 Definition pr_expr (r : rexpr) : str := pr_atom (r_first r) ++ pr_rest (r_rest r).
 
 (* what can be written that way *)
-Definition wf_var (v : str) : Prop := v = s_state \/ v = s_name \/ (v <> [] /\ forallb is_alpha v = true).
+Definition wf_var (v : str) : Prop :=
+  v = s_state \/ v = s_name \/ (exists c w, v = c :: w /\ is_alpha c = true /\ forallb is_tagchar w = true).
 Definition plain_char (c : N) : bool := negb ((c =? 34) || (c =? 10) || (c =? 13) || (c =? 9)).
 Definition wf_str (s : str) : Prop := forallb plain_char s = true.
 Definition wf_atom (a : ratom) : Prop :=
